@@ -122,3 +122,60 @@ impl Pointwise {
         self.starts.len()
     }
 }
+
+/// Day signature with comments: the ranges of `schedule_at(d).into_iter()` as they come, each
+/// with its comment set flattened on ", " (several comments of one rule print joined).
+pub fn real_day_sig<L: Localize>(oh: &OpeningHours<L>, d: NaiveDate) -> Vec<(u16, u16, u8, Vec<String>)> {
+    oh.schedule_at(d)
+        .into_iter()
+        .map(|tr| {
+            let mut cs: Vec<String> = tr.comments.iter().flat_map(|c| c.split(", ").map(|s| s.to_string()).collect::<Vec<_>>()).collect();
+            cs.sort();
+            cs.dedup();
+            (tr.range.start.mins_from_midnight(), tr.range.end.mins_from_midnight(), kind_code(tr.kind), cs)
+        })
+        .collect()
+}
+
+/// First day of the blocks on which two evaluators differ (kinds only, or kinds and comments).
+pub fn first_difference<L: Localize>(
+    a: &OpeningHours<L>,
+    b: &OpeningHours<L>,
+    blocks: &[(NaiveDate, NaiveDate)],
+    with_comments: bool,
+) -> (u64, Option<(NaiveDate, String, String)>, bool) {
+    let mut n = 0u64;
+    let mut varied = false;
+    let mut prev: Option<Vec<Run>> = None;
+    for (d0, d1) in blocks {
+        let mut d = *d0;
+        loop {
+            n += 1;
+            if with_comments {
+                let (x, y) = (real_day_sig(a, d), real_day_sig(b, d));
+                if x != y {
+                    return (n, Some((d, format!("{x:?}"), format!("{y:?}"))), varied);
+                }
+                let r: Vec<Run> = x.iter().map(|t| (t.0, t.1, t.2)).collect();
+                if let Some(p) = &prev {
+                    varied |= *p != r;
+                }
+                prev = Some(r);
+            } else {
+                let (x, y) = (real_day_runs(a, d), real_day_runs(b, d));
+                if x != y {
+                    return (n, Some((d, fmt_runs(&x), fmt_runs(&y))), varied);
+                }
+                if let Some(p) = &prev {
+                    varied |= *p != x;
+                }
+                prev = Some(x);
+            }
+            if d >= *d1 {
+                break;
+            }
+            d = d.succ_opt().unwrap();
+        }
+    }
+    (n, None, varied)
+}
